@@ -412,6 +412,68 @@ pub fn run(run: &Run) {
             }
         }
     }
+    // what a node went through before it stopped is not part of what it reads back: offers it refused (a block with the right header
+    // and another body, a block with a wrong header), queries it answered.  The restarted node has seen none of that; from then on
+    // both must treat the honest block, and the blocks after it, alike.
+    for (name, rootn) in &roots {
+        let s0 = match &rootn.real {
+            Real::Sealed(s) => s.clone(),
+            _ => continue,
+        };
+        let built = guard(|| {
+            let mut u = s0.next_unsealed();
+            let t = tx_t(melstructs::TxKind::Faucet, vec![], vec![out_t(3, melstructs::Denom::Mel)], 0, b"c08-offer".to_vec());
+            let with_tx = u.apply_tx(&t).is_ok();
+            (u.seal(Some(action_dest(2))).to_block(), with_tx)
+        });
+        let (honest, _with_tx) = match built {
+            Ok(x) => x,
+            Err(_) => continue,
+        };
+        let mut offers: Vec<(&str, melstructs::Block)> = vec![];
+        let mut b1 = honest.clone();
+        b1.transactions.clear();
+        offers.push(("the honest header over an emptied body", b1));
+        let mut b2 = honest.clone();
+        b2.proposer_action = Some(action_dest(5));
+        offers.push(("the honest header with another proposer action", b2));
+        let mut b3 = honest.clone();
+        b3.header.fee_pool = melstructs::CoinValue(b3.header.fee_pool.0 + 1);
+        offers.push(("the honest body under a header with another fee pool", b3));
+        for k in 0..=offers.len() {
+            // the first k offers are made (and refused) before the stop; k = 0: only queries
+            let outcome = guard(|| {
+                let orig = s0.clone();
+                let mut refused = vec![];
+                for (what, b) in offers.iter().take(k) {
+                    refused.push((*what, orig.apply_block(b).is_ok()));
+                }
+                let _ = (orig.header(), orig.to_block(), orig.coin(melstructs::CoinID::zero_zero()), orig.pool(melstructs::PoolKey::new(melstructs::Denom::Mel, melstructs::Denom::Sym)), orig.history(melstructs::BlockHeight(0)));
+                let rebuilt = match restart(&orig) {
+                    Ok(r) => r,
+                    Err(e) => return Err(format!("restart failed: {}", e)),
+                };
+                let (a, b) = (orig.apply_block(&honest).map(|s| s.header()), rebuilt.apply_block(&honest).map(|s| s.header()));
+                let same = match (&a, &b) {
+                    (Ok(x), Ok(y)) => x == y,
+                    (Err(_), Err(_)) => true,
+                    _ => false,
+                };
+                if !same {
+                    return Ok(Some(format!("after {} refused offer(s) {:?} the node that kept running answers the honest block with {:?}, the restarted one with {:?}", k, refused, a.map(|h| h.hash().to_string()).map_err(|e| e.to_string()), b.map(|h| h.hash().to_string()).map_err(|e| e.to_string()))));
+                }
+                Ok(None)
+            });
+            run.transition();
+            run.validated();
+            match outcome {
+                Ok(Ok(Some(what))) => run.violation("C08", format!("diverge-after-refused-offers/offers={}", k.min(1)), format!("root {}: {}", name, what), json!({"root": name, "refused_offers": k})),
+                Ok(Ok(None)) => run.outcome("seen-before-the-stop:same"),
+                Ok(Err(_)) => run.outcome("seen-before-the-stop:restart-failed(reported elsewhere)"),
+                Err(_) => run.outcome("seen-before-the-stop:panic(reported under C09)"),
+            }
+        }
+    }
     scripted_histories(run, thorough);
     let mut points_total = 0;
     for (name, rootn) in roots {
